@@ -7,7 +7,7 @@ RUN_MODULE = "C11.Run"
 RULE = ("headers built through the public constructors (method_call / signal / method_return / error, Builder setters, "
         "Builder::from(Header)): 4 types x 8 flag sets (incl. the ones with_flags refuses) x both endians x random subsets of the "
         "optional fields with random valid names/paths of varying length (every padding residue) x body shapes "
-        "unit, s, u, (su), as, h, (sh) and raw bodies over a list of signatures with 0..3 fds; a few invalid names and over-long "
+        "unit, s, u, (su), as, h, (sh), several descriptors ((hh), ah, (hv) over 3 files incl. the same fd twice) and raw bodies over a list of signatures with 0..3 fds; a few invalid names and over-long "
         "signatures. non-trivial = a message was built (not BERR).")
 TRUSTED = ["zvariant's encoding of the body value itself is taken from hand-written encoders of the listed shapes (C01 owns the general codec)",
            "signature grammar modelled by a deterministic parser (C06 owns the combinator code)"]
@@ -256,6 +256,10 @@ def rand_body(rng):
         return "h"
     if k < 0.76:
         return "sh " + x(rand_text(rng))
+    if k < 0.80:   # several typed descriptors out of a table of 3 files, repeats included
+        kind = rng.choice(["hh", "hv", "ah", "ah"])
+        n = 2 if kind != "ah" else rng.choice([0, 1, 2, 3, 5])
+        return kind + "".join(" %d" % rng.randrange(3) for _ in range(n))
     sig = rng.choice(SIGS)
     n = rng.choice([0, 0, 1, 3, 4, 7, 8, 9, 16, 31])
     data = bytes(rng.randrange(256) for _ in range(n))
@@ -308,6 +312,14 @@ def gen(rng, tier):
     for n in range(1, 18):
         yield bline("l", 1, 0, 1, "/" + "p" * n, None, "M" * n, None, None, None, None, False, "unit")
         yield bline("B", 4, 0, 1, "/", "a." + "b" * n, "S", None, None, ":1." + "2" * n, None, False, "s " + x("z" * n))
+    # several descriptors: every pair (same fd twice, two different fds), plain and inside a variant, arrays with repeats
+    for e in "lB":
+        for i in range(3):
+            for j in range(3):
+                yield bline(e, 4, 0, 1, "/", "a.b", "S", None, None, None, None, False, "hh %d %d" % (i, j))
+                yield bline(e, 1, 0, 2, "/p", None, "M", None, None, ":1.2", None, i == j, "hv %d %d" % (i, j))
+        for l in ([], [0], [1, 1], [0, 1, 2], [2, 0, 2, 0], [1, 1, 1, 1, 1, 1, 1]):
+            yield bline(e, 2, 0, 3, None, None, None, None, 9, None, None, False, "ah" + "".join(" %d" % v for v in l))
     # over-long body signature: the builder asserts (usize_to_u8) instead of returning an error
     yield bline("l", 4, 0, 1, "/", "a.b", "S", None, None, None, None, False, "raw %s - 0" % x("y" * 256))
     yield bline("l", 4, 0, 1, "/", "a.b", "S", None, None, None, None, False, "raw %s - 0" % x("y" * 255))
@@ -325,10 +337,31 @@ def classify(case, impl_out):
     return "t%s:%s:%s" % (w[2], w[13] if len(w) > 13 else "?", impl_out.split("|")[0])
 
 
+def fd_field(dump):
+    """the UNIX_FDS value shown in a header dump ('-' = absent = 0) and the number of descriptors attached (/n<k>)"""
+    import re
+    m = re.search(r",fd=([0-9]+|-)[:|]", dump + "|")
+    n = re.search(r"/n([0-9]+)", dump)
+    if not m or not n:
+        return None
+    return (0 if m.group(1) == "-" else int(m.group(1))), int(n.group(1))
+
+
 def meets_spec(impl, spec):
     """bytes, fd count, header+body of the built message, header+body of the re-parsed one, typed body value"""
     if impl == spec:
         return True
+    if spec.startswith("FDCHK|"):
+        # several descriptors: declared count (UNIX_FDS) = attached count, in the built and in the re-parsed message,
+        # and every descriptor of the body comes back as the file it was
+        i = impl.split("|")
+        if len(i) != 6 or i[0] != "OK":
+            return False
+        a, b = fd_field(i[3]), fd_field(i[4])
+        if a is None or b is None:
+            return False
+        attached = int(i[2])
+        return a == (attached, attached) and b == (attached, attached) and i[5] == spec.split("|", 1)[1]
     i, s = impl.split("|"), spec.split("|")
     if len(s) != 6 or len(i) != 6:
         return False
